@@ -148,6 +148,7 @@ async fn finals(st: &Storage<ArrayKey<N>>, log: &Log, keys: u64, payloads: &Mute
 }
 
 static LIFECYCLE: AtomicU64 = AtomicU64::new(0);
+static ACCOUNTING: Mutex<Vec<Value>> = Mutex::new(Vec::new());
 static RESTORE_MODE: AtomicU64 = AtomicU64::new(0);
 
 fn main() {
@@ -205,6 +206,17 @@ fn main() {
                 rec_q.driver_event("quiescent", "", -1, true, 0);
             }
             finals(&st, &log2, keys, &pl2).await;
+            // C15 at quiescence of a concurrent session: every blob file is a blob the storage counts, and the next
+            // id is the one after the highest id in the directory
+            {
+                let files: Vec<u64> = list_files(&dir2).into_iter().filter(|f| !f.1).map(|f| f.0).collect();
+                let bc = st.blobs_count().await as u64;
+                let nid = st.next_blob_id() as u64;
+                let maxid = files.iter().max().copied();
+                if bc != files.len() as u64 || Some(nid) != maxid.map(|m| m + 1) {
+                    ACCOUNTING.lock().unwrap().push(json!({"kind": "accounting", "got": {"blobs_count": bc, "next_blob_id": nid, "blob_files": files.len(), "max_blob_id": maxid}, "session": session}));
+                }
+            }
             let st = Arc::try_unwrap(st).map_err(|_| "storage still shared".to_string())?;
             st.close().await.map_err(|e| format!("close: {e:#}"))?;
             Ok(())
@@ -253,6 +265,7 @@ fn main() {
         for (_, l) in lines.iter() { let _ = writeln!(w, "{}", l); }
     }
     let _ = std::fs::remove_dir_all(&dir);
+    findings.extend(ACCOUNTING.lock().unwrap().drain(..));
     for f in findings.iter() {
         println!("MISMATCH {}", json!({"cfg": cfg, "clients": clients, "ops": ops, "keys": keys, "mismatches": [f]}));
     }
